@@ -29,6 +29,8 @@ Spec directives (contracts/*.skel):
   @pred binop== <C expression>         built-in `a == b` (`!=` is its negation) when at least one operand is tagged; @0,@1 = tags
   @assigntag <Record::field> <C macro> `x.field = e` emits MACRO(<tag of e>, <tag of x>); also `index:<member>` for `m[k] = e`
   @assign <Record::field> <C macro>    `x.field = e` emits MACRO(<condition skeleton of e>)
+  @opaque <callee> <C statement>       a function of the same file that is NOT descended into: the call emits the statement (its
+                                       effect on the ghost state as assumed by this skeleton)
   @throws <callee>                     the call may throw (control may leave to the enclosing handler / the caller)
   @return <fn> <C macro name>          `return e;` in <fn> emits MACRO(<condition skeleton of e>);
   @focus <fn> <string literal>         lower only the then-branch of the first `if` in <fn> whose condition mentions the
@@ -62,6 +64,7 @@ class SkelSpec:
         self.focus = []
         self.tagparams, self.assigns, self.tagcalls = {}, {}, {}
         self.passthrough = {'second', 'first'}
+        self.opaque = {}
         self.assigntags = {}
         sec = None
         for raw in open(path):
@@ -87,6 +90,8 @@ class SkelSpec:
                     self.throws |= set(st.split()[1:])
                 elif d == '@return':
                     self.returns[parts[1]] = parts[2]
+                elif d == '@opaque':
+                    self.opaque[parts[1]] = parts[2] if len(parts) > 2 else ';'
                 elif d == '@passthrough':
                     self.passthrough |= set(st.split()[1:])
                 elif d == '@tagcall':
@@ -251,7 +256,7 @@ class Skel:
                 key, d, _ = self.callee(e)
                 if self.match(self.spec.events, key) or self.match(self.spec.preds, key) or self.match(self.spec.throws, key):
                     res = True
-                elif d is not None and self.contains_tracked(d, seen):
+                elif d is not None and not self.match(self.spec.opaque, key) and self.contains_tracked(d, seen):
                     res = True
             if e.get('kind') == 'CXXThrowExpr' and self.spec.options.get('track_throw'):
                 res = True
@@ -428,6 +433,10 @@ class Skel:
         if key and key.startswith('lambda:'):
             lines.append(f'{ind}{self.lambda_name(key[7:])}();')
             self.after_call(lines, ind, True)
+        elif d is not None and not pat and not pp and self.match(self.spec.opaque, key):
+            # a boundary of this skeleton: the callee is NOT descended into; the spec says what it does to the ghost state
+            st = self.spec.opaque[self.match(self.spec.opaque, key)].rstrip()
+            lines.append(ind + st + ('' if st.endswith((';', '}')) else ';'))
         elif d is not None and not pat and not pp:
             cid = self.canon(d['id'])
             if cid in self.fnames or self.contains_tracked(d):
